@@ -63,7 +63,7 @@ func bceCrossCheck(c *Check, a *Analysis) map[string]interface{} {
 	// every in-package static caller of those must itself be covered or have a barrier
 	n, bad := 0, 0
 	perFn := map[string]int{}
-	for _, fn := range p.Fns {
+	for _, fn := range p.AllFns {
 		eachInstrLocal(fn, func(in ssa.Instruction) {
 			var base ssa.Value
 			switch x := in.(type) {
